@@ -1,9 +1,9 @@
 /-
 C16 — witnesses: clauses that are false of the current code, refuted on a concrete input of the model
 (mirrored by a `finding:` line in known_findings.txt and a replay on the real implementation in py/props/c16.py):
-`embedded_files_unsorted`; and regression theorems for the repaired findings (`fixed:` lines), stating the now-correct
+(none at present); and regression theorems for the repaired findings (`fixed:` lines), stating the now-correct
 behaviour on the input that used to refute the clause: `alpha_state_cache_regression`, `dests_names_sorted_regression`,
-`none_component_regression`.
+`none_component_regression`, `embedded_files_sorted_regression`.
 -/
 import WpModel.Model.PdfStream
 import WpModel.Model.PdfNames
@@ -58,13 +58,14 @@ theorem none_component_regression :
     (colourOps ⟨"display-p3", .none, .int 0, .int 1, .int 1, .none, .int 0, .int 1⟩ false).map Op.render =
       ["0_0_1_rg"] := by decide +kernel
 
-/-- **The `/EmbeddedFiles` name tree is not sorted for all file names** (false of the current code; finding
-`embedded-files-sorted-by-serialised-key`): attachments named `a` and `a b`.  The sort key is the serialised string:
-`(a)` against `(a b)` compares `)` (29h) with the blank (20h), so `a b` is listed first although `a` — a prefix of it — is
-the smaller key; likewise `a(` is serialised `(a\()` and lands after `aA`. -/
-theorem embedded_files_unsorted :
-    PdfNames.embeddedKeys [[97], [97, 32, 98]] = [[97, 32, 98], [97]] ∧
-    PdfNames.sortedBy PdfNames.lexLe (PdfNames.embeddedKeys [[97], [97, 32, 98]]) = false ∧
-    PdfNames.sortedBy PdfNames.lexLe (PdfNames.embeddedKeys [[97, 40], [97, 65]]) = false := by decide
+/-- Regression of the fixed finding `embedded-files-sorted-by-serialised-key` (commit e909019): attachments named `a`
+and `a b`, and `a(` and `aA`.  The array is now ordered by the bytes of the names (`a` before `a b`, `a(` before `aA`) and
+sorted; the old order by the written forms `(a)` / `(a b)` / `(a\()` was not. -/
+theorem embedded_files_sorted_regression :
+    PdfNames.embeddedKeys [[97, 32, 98], [97]] = [[97], [97, 32, 98]] ∧
+    PdfNames.sortedBy PdfNames.lexLe (PdfNames.embeddedKeys [[97, 32, 98], [97]]) = true ∧
+    PdfNames.sortedBy PdfNames.lexLe (PdfNames.embeddedKeys [[97, 65], [97, 40]]) = true ∧
+    PdfNames.sortedBy PdfNames.lexLe (PdfNames.embeddedKeysWrittenOrder [[97], [97, 32, 98]]) = false ∧
+    PdfNames.sortedBy PdfNames.lexLe (PdfNames.embeddedKeysWrittenOrder [[97, 40], [97, 65]]) = false := by decide
 
 end Wp.C16.Witness
